@@ -476,6 +476,16 @@ impl Session<'_> {
             has_client_side && state_config.server_state_creation == ServerStateCreation::NeverSkip
         };
         use ServerState::*;
+        // Will the store hold a record under the current (i.e. new) session id
+        // once the operations below have gone through?
+        let record_under_new_id = match (self.server_state.get(), &self.id) {
+            (None, CurrentSessionId::ToBeRenamed { .. }) => true,
+            (Some(Unchanged { .. }), CurrentSessionId::NewlyGenerated(_)) => create_if_empty,
+            (Some(Unchanged { .. } | Changed { .. }), _) => true,
+            (Some(DoesNotExist), CurrentSessionId::ToBeRenamed { .. }) => false,
+            (Some(DoesNotExist), _) => create_if_empty,
+            (None | Some(MarkedForDeletion), _) => false,
+        };
         match self.server_state.get() {
             Some(DoesNotExist) => match self.id {
                 CurrentSessionId::NewlyGenerated(id) | CurrentSessionId::Existing(id) => {
@@ -651,6 +661,12 @@ impl Session<'_> {
             });
             new_cell_with(new_state)
         };
+        if record_under_new_id {
+            // The record has been created, or renamed: from now on this is an existing
+            // session, or syncing again (e.g. when finalizing after an explicit `sync`)
+            // would try to create, or rename, the same record a second time.
+            self.id = CurrentSessionId::Existing(self.id.new_id());
+        }
         Ok(())
     }
 
